@@ -419,6 +419,10 @@ QUICK_STRATA = [
     # season closed by the configured latest harvest date; deficit irrigation on a heavy soil
     dict(crop="Cotton", station="tunis_climate.txt", irr_method=1, soil="Clay", soil_kind="builtin", harvest_early=True,
          n_seasons=2, start_mode="before", off_season=False),
+    # the season is closed by the latest harvest date while the fallow days that follow are simulated and water is
+    # applied every day (whatever is applied or grows after the harvest is visible in the daily tables)
+    dict(crop="Maize", station="champion_climate.txt", irr_method=5, soil="SandyLoam", soil_kind="builtin", harvest_early=True,
+         n_seasons=2, start_mode="before", off_season=True),
     # dry seed bed (delayed germination) under stage-dependent thresholds
     dict(crop="Maize", station="champion_climate.txt", irr_method=1, soil="SiltLoam", soil_kind="builtin", n_seasons=1,
          start_mode="at", iwc={"wc_type": "Pct", "method": "Layer", "depth_layer": [1], "value": [10.0]}),
